@@ -490,6 +490,107 @@ def generated_history(job):
                                             'from those of the complete listing', None, 'edition-results-differ')
                 coll.count('generated_prefixes_parsed')
         coll.count('generated_unconverged_histories')
+    elif mode == 'duplicated-times':
+        # every edition prints its time(s) twice with different values (mono: simulation time again
+        # after the block; parallel style: elapsed time after the block and again in a summary)
+        para = rng.random() < 0.6
+        doc = c10.draw_doc(rng)
+        if rng.random() < 0.4:
+            doc['editions'] = doc['editions'][:1]
+        for edi in doc['editions']:
+            edi['used'] = min(edi['used'], edi['batch'])
+        if para:
+            plines = open(os.path.join(repo, DATA, 'ttsSimplePacket20.d.PARA.res.ceav5'), encoding='utf-8',
+                          errors='ignore').read().split('\n')
+            i_init = next(i for i, l in enumerate(plines) if 'initialization time' in l)
+            head_used = plines[:i_init + 1] + ['', ' elapsed time (s): %d' % rng.randint(1, 9)]
+        else:
+            head_used = head
+        lines = c10.listing_text(doc, head_used).split('\n')
+        out_lines, wanted = [], {}
+        batches = iter(e['batch'] for e in doc['editions'])
+        for line in lines:
+            out_lines.append(line)
+            if line.startswith(' simulation time (s) :'):
+                bnum = next(batches)
+                tsim = int(line.split()[-1])
+                extra = ['']
+                if para:
+                    tela = rng.randint(100, 900)
+                    extra += [' elapsed time (s): %d' % tela, '', ' some statistics of the run', '',
+                              ' elapsed time (s): %d' % (tela + rng.randint(1, 9)), '']
+                    wanted[bnum] = {'simulation_time': tsim, 'elapsed_time': tela}
+                else:
+                    wanted[bnum] = {'simulation_time': tsim}
+                if not para or rng.random() < 0.5:
+                    extra += [' end of the edition', ' simulation time (s) : %d' % (tsim + rng.randint(1, 9)), '']
+                out_lines += extra
+        data = '\n'.join(out_lines).encode('utf-8')
+        full = write('full.res', data)
+
+        def observe(path):
+            from valjean.eponine.tripoli4.parse import Parser, ParserException
+            try:
+                par = Parser(path)
+            except ParserException:
+                return None
+            except Exception as exc:  # noqa
+                coll.oracle_failure(f'Parser(path) raises {type(exc).__name__}', None,
+                                    'parser-open-' + type(exc).__name__)
+                return None
+            obs = {}
+            for bnum in par.batch_numbers():
+                try:
+                    res = par.parse_from_number(bnum).res
+                except ParserException:
+                    continue
+                except Exception as exc:  # noqa
+                    coll.oracle_failure(f'parsing edition {bnum} raises {type(exc).__name__}', None,
+                                        'parse-raises-' + type(exc).__name__)
+                    continue
+                times = {k: res['batch_data'].get(k) for k in FLAGS}
+                rest = {k: (v if k != 'batch_data' else {kk: vv for kk, vv in v.items() if kk not in FLAGS})
+                        for k, v in res.items() if k != 'run_data'}
+                obs[bnum] = (hashlib.sha1(repr(canon(rest)).encode('utf-8', 'replace')).hexdigest(), times)
+            return obs
+        ref = observe(full) or {}
+        for bnum, want in wanted.items():
+            got = ref.get(bnum, (None, {}))[1]
+            for key, val in want.items():
+                if got.get(key) != val:
+                    coll.oracle_failure(f'{key} of edition {bnum} of the complete listing is {got.get(key)}, the '
+                                        f'time printed for that edition is {val}', None, 'edition-time-wrong')
+        first_end = data.find(b' simulation time (s) :')
+        bounds = [i + 1 for i in range(first_end, len(data)) if data[i:i + 1] == b'\n']
+        tail_of_editions = [b for b in bounds
+                            if any(0 <= b - e < 260 for e in
+                                   [i for i in range(len(data)) if data.startswith(b' simulation time (s) :', i)])]
+        offsets = sorted(set(rng.sample(tail_of_editions, min(26, len(tail_of_editions)))
+                             + [b + rng.choice([1, 5, 11]) for b in rng.sample(tail_of_editions,
+                                                                               min(8, len(tail_of_editions)))]))
+        for cut in offsets:
+            part = observe(write('cut.res', data[:cut]))
+            coll.count('duplicated_times_prefixes')
+            for bnum, (dig, times) in (part or {}).items():
+                if bnum not in ref:
+                    coll.oracle_failure(f'edition {bnum} parses in the listing cut at byte {cut} but not in the '
+                                        'complete one', None, 'only-truncated-parses')
+                    continue
+                if dig != ref[bnum][0]:
+                    coll.oracle_failure(f'results of edition {bnum} of the listing cut at byte {cut} differ from '
+                                        'those of the complete listing', None, 'edition-results-differ')
+                for key, val in times.items():
+                    full_val = ref[bnum][1].get(key)
+                    if val == full_val:
+                        continue
+                    if val is None:
+                        # not printed yet when the job was killed: the known finding
+                        coll.oracle_failure(f'edition {bnum} of the listing cut at byte {cut} lacks the {key} '
+                                            'printed after its end flag', None, 'elapsed-time-after-cut')
+                    else:
+                        coll.oracle_failure(f'{key} of edition {bnum} is {val} for the listing cut at byte {cut}, '
+                                            f'{full_val} for the complete listing', None, 'edition-time-differs')
+        coll.count('duplicated_times_histories_' + ('parallel' if para else 'mono'))
     else:
         # one scratch path rewritten with other content of the same length
         if mode == 'same-length-generated':
@@ -533,9 +634,9 @@ def generated_history(job):
 
 def start_generated_histories(ctx):
     quick = ctx.tier == 'quick'
-    modes = ['unconverged', 'same-length-generated', 'same-length-prefixes']
-    jobs = [(ctx.wd(), hid, modes[hid % 3], ctx.rng.randrange(10 ** 9), common.REPO)
-            for hid in range(12 if quick else 150)]
+    modes = ['unconverged', 'same-length-generated', 'same-length-prefixes', 'duplicated-times']
+    jobs = [(ctx.wd(), hid, modes[hid % 4], ctx.rng.randrange(10 ** 9), common.REPO)
+            for hid in range(16 if quick else 200)]
     pool = multiprocessing.get_context('fork').Pool(4, maxtasksperchild=1)
     return pool, jobs, pool.map_async(generated_history, jobs, chunksize=1)
 
@@ -795,6 +896,16 @@ def edition_variants(rng, repo):
     v4 = head + [' batch number : 100'] + eds[0] + [' batch number : 100'] + again \
         + [' PARTIAL EDITION'] + tail
     out.append(('variant_retimed_partial', '\n'.join(v4).encode()))
+    # 5: a parallel run that prints its times again, with other values, in the final summary
+    para = open(os.path.join(repo, DATA, 'ttsSimplePacket20.d.PARA.res.ceav5'), encoding='utf-8',
+                errors='ignore').read().split('\n')
+    i_ela = max(i for i, l in enumerate(para) if 'elapsed time' in l)
+    i_simu = max(i for i, l in enumerate(para) if 'simulation time' in l)
+    tsim = int(para[i_simu].split()[-1])
+    tela = int(para[i_ela].split()[-1])
+    v5 = para[:i_ela + 1] + ['', ' final summary', ' simulation time (s): %d' % (tsim + rng.randint(1, 9)),
+                             '', ' elapsed time (s): %d' % (tela + rng.randint(1, 9))] + para[i_ela + 1:]
+    out.append(('variant_para_times_twice', '\n'.join(v5).encode()))
     return out
 
 
@@ -1130,9 +1241,11 @@ def oracle_and_cases(ctx, job, out, sfx):
             for flag, bnum, tim in times_cmp:
                 if (flag, bnum) in ftimes and ftimes[(flag, bnum)] == tim:
                     continue
-                if (flag, bnum) in rep_times:
+                if (flag, bnum) in rep_times and full.get('partial'):
+                    # a PARTIAL EDITION takes the last time printed: a prefix may hold an earlier one
                     ctx.count('oracle_left_to_model_restored_batch')
                     continue
+                # (a time printed twice for an edition: the first one is the edition's, whatever follows)
                 ctx.oracle_failure(f'time {flag} of batch {bnum} = {tim} differs from the complete '
                                    f'listing ({ftimes.get((flag, bnum))}) :: {where}', case,
                                    key='time-differs')
